@@ -233,6 +233,24 @@ def make_config_case(rng, client_flag, builder_flag, source, target):
                                                        "bit": bit, "effective": effective, "sent": data}}}
 
 
+def make_two_broker_case(rng, flag, target, order):
+    """one fetch call answered by two brokers: the first partition's set is intact, the other broker's set holds the altered message"""
+    spec = {"brokers": brokers(2), "topics": {TOPIC: [1, 2]}, "logs": {(TOPIC, 0): [P(0, b"k", b"intact-0"), P(1, None, b"intact-1")]}}
+    ops = boot_ops(spec) + [T("set_fetch_crc_validation", [flag])]
+    entries, path, req, chunk = corpus()[target]
+    n = len(clean_message(entries, path, chunk)) - 12
+    cb = sorted(content_bits(entries, path))
+    bit = rng.choice(cb) if cb else rng.randrange(0, 8 * n)      # (a wrapper has no plain content bits: any covered bit, validation on only)
+    data = build_set(entries, path, chunk, xor_of_bits(n, [bit]))
+    hw = kproto.flatten_entries(entries)[-1][0] + 1
+    body = {"topics": [{"topic": TOPIC, "partitions": [{"partition": 1, "error": 0, "highwatermark": hw, "message_set": data}]}]}
+    fps = [fp(TOPIC, 0, 0), fp(TOPIC, 1, req)]
+    h2 = [h + b":" + str(p).encode() for _, (h, p) in sorted(spec["brokers"].items())][1]
+    ops.append({"op": T("fetch_messages", [fps if order == 0 else fps[::-1]]), "mutate": {"kind": "body", "api": "fetch", "host": h2, "body": body}})
+    return {"cluster": spec, "ops": ops,
+            "meta": {"nboot": 3, "jobs": [], "two_brokers": {"flag": flag, "target": target, "bit": bit, "sent": data, "req": req}}}
+
+
 def gen(rng, tier):
     quick = tier == "quick"
     targets = corpus()
@@ -291,6 +309,11 @@ def gen(rng, tier):
             for client_flag in ((None, 0, 1) if source == "client" else (None,)):
                 for builder_flag in (None, 0, 1):
                     cases.append(make_config_case(rng, client_flag, builder_flag, source, target))
+    # one damaged set among the answers of two brokers
+    for target in (("plain-key", "gzip-wrapper") if quick else ("plain-key", "plain-middle", "gzip-wrapper", "snappy-wrapper", "inner-gzip")):
+        for flag in ((1, 0) if content_bits(*corpus()[target][:2]) else (1,)):
+            for order in (0, 1):
+                cases.append(make_two_broker_case(rng, flag, target, order))
     return cases
 
 
@@ -316,6 +339,25 @@ CORRUPT = T("err", [T("kafka", [2])])
 def oracle(case, recs, cl):
     fails = []
     meta = case["meta"]
+    if meta.get("two_brokers"):
+        c = meta["two_brokers"]
+        what = "two brokers, %s bit %d in the second broker's answer, validation %s" % (c["target"], c["bit"], "on" if c["flag"] else "off")
+        if len(recs) < len(case["ops"]):
+            return ["C04: %s: case stopped early: %s" % (what, dumps(recs[-1]["impl"])[:100])]
+        res = recs[-1]["impl"]
+        if res.name in ("panic", "hang", "abort"):
+            return ["C04: %s: fetch crashed: %s" % (what, dumps(res)[:80])]
+        if c["flag"]:
+            if res != CORRUPT:
+                fails.append("C04: %s: expected (err (kafka 2)), got %s" % (what, dumps(res)[:140]))
+        elif res == CORRUPT:
+            fails.append("C04: %s: rejected as corrupt" % what)
+        elif res.name == "ok":
+            got = dict((p, ms) for (p, hw, ms) in delivered(res) if hw is not None)
+            want1 = [(o, k_, v) for (o, k_, v) in decode_ignoring_crc(c["sent"]) if o >= c["req"]]
+            if got.get(1) != want1 or [o for (o, _, _) in got.get(0, [])] != [0, 1]:
+                fails.append("C04: %s: both sets must be delivered as sent, got %s" % (what, dumps(res)[:160]))
+        return fails
     if meta.get("config"):
         c = meta["config"]
         what = "consumer from %s (client setting %s, builder setting %s) %s bit %d" % (c["source"], c["client"], c["builder"], c["target"], c["bit"])
@@ -383,7 +425,7 @@ def oracle(case, recs, cl):
 
 
 def nontrivial(case, recs):
-    if case["meta"].get("config"):
+    if case["meta"].get("config") or case["meta"].get("two_brokers"):
         return len(recs) == len(case["ops"])
     jobs = case["meta"]["jobs"]
     return len(recs) == len(case["ops"]) and any(j and j["validate"] and any(j["xor"]) for j in jobs)
